@@ -251,6 +251,12 @@ def hessTimesPenFull (c : Consts K) (img x : Nat → K) (priorOfInput numSubsets
     (Ss : List (List (Viewgram K))) (v : Nat) : K :=
   Ss.foldl (fun o S => penalisedHess (hessTimes c img x o S v) priorOfInput numSubsets) out0
 
+/-- the same loop on the numbers it handles at one voxel: `prods` = what the unpenalised subset products subtract from the
+    output there, one per subset (`hessTimes … o S v = o − product`); this is what the driver executes
+    (`C05_penFullAccumulate_is_hessTimesPenFull`, `…_approxHessPenFull`) -/
+def penFullAccumulate (prods : List K) (priorOfInput numSubsets out0 : K) : K :=
+  prods.foldl (fun o h => penalisedHess (o - h) priorOfInput numSubsets) out0
+
 /-- `add_multiplication_with_approximate_Hessian` (cxx:329-338) on an object with a prior, likewise (each step cxx:282-311) -/
 def approxHessPenFull (c : Consts K) (x : Nat → K) (priorOfInput numSubsets : K) (out0 : K)
     (Ss : List (List (Viewgram K))) (v : Nat) : K :=
